@@ -32,6 +32,8 @@ UnsubAllEv == /\ Ev.t = "unsuball" /\ subs' = {s \in subs : ~(s.c = Ev.c /\ s.pa
               /\ UNCHANGED <<alive, seq, mo>> /\ Ok
 DiscEv == /\ Ev.t = "disc" /\ subs' = {s \in subs : s.c # Ev.c} /\ alive' = alive \ {Ev.c} /\ UNCHANGED <<seq, mo>> /\ Ok
 
+ReopenEv == /\ Ev.t = "reopen" /\ alive' = alive \cup {Ev.c} /\ UNCHANGED <<subs, seq, mo>> /\ Ok
+
 \* what connection c must have received for one publish
 Expected(c, ch, msg) == {[kind |-> d.kind, pat |-> d.pat, ch |-> d.ch, msg |-> msg] : d \in {x \in Deliveries(subs, ch) : x.c = c}}
 GotOf(c) == LET r == CHOOSE x \in SeqSet(Ev.got) : x.c = c IN r.msgs
@@ -67,8 +69,8 @@ ConcEv == /\ Ev.t = "conc" /\ UNCHANGED <<subs, alive, seq, mo>>
              ELSE Ok
 
 TNext == /\ i <= Len(Trace) /\ i' = i + 1
-         /\ (Reset \/ SubEv \/ UnsubEv \/ UnsubAllEv \/ DiscEv \/ PubEv \/ ChansEv \/ NumsubEv \/ NumpatEv \/ ConcEv)
-         /\ UNCHANGED <<nops, log>>
-TSpec == i = 1 /\ err = "" /\ seq = 0 /\ mo = <<>> /\ subs = {} /\ alive = {} /\ nops = 0 /\ log = <<>>
+         /\ (Reset \/ SubEv \/ UnsubEv \/ UnsubAllEv \/ DiscEv \/ ReopenEv \/ PubEv \/ ChansEv \/ NumsubEv \/ NumpatEv \/ ConcEv)
+         /\ UNCHANGED <<nops, log, gen>>
+TSpec == i = 1 /\ err = "" /\ seq = 0 /\ mo = <<>> /\ subs = {} /\ alive = {} /\ gen = <<>> /\ nops = 0 /\ log = <<>>
          /\ [][TNext]_<<tvars, vars>>
 =============================================================================
